@@ -114,7 +114,7 @@ func cmdCheck(args []string) int {
 	var confirmed []engine.Violation
 	for _, v := range viols {
 		if v.Case == nil {
-			continue
+			engine.Fatalf("violation %s was reported without a replayable case", v.Sig)
 		}
 		raw, err := json.Marshal(v.Case)
 		if err != nil {
